@@ -24,7 +24,7 @@ from ..runs import run_function
 from ..scenarios import core_impl, recv_sym
 from ..values import ARG, CLS, FRESH, IMM, RECV, Const, Event, Sym, vrepr
 from . import boolfn
-from .base import get_ctx, pmap, walk_own, walk_own_all
+from .base import get_ctx, pmap, walk_own, walk_own_all, with_private_callees
 from .c08 import attr_class_fn
 
 META = {
@@ -251,6 +251,8 @@ def _check_main(ctx, rep: Report):
             return None
         try:
             cond = conds[0] if len(conds) == 1 else ast.BoolOp(op=ast.And(), values=list(conds))
+            for f_ in with_private_callees(ctx.p, fi):
+                cond = boolfn.inline_predicates(cond, f_.node)
             tbl = boolfn.table(cond, classify, ["managed", "is_overflow"]) if conds else {}
             want = {(m, o): (not m) or o for m in (False, True) for o in (False, True)}
             ok = bool(conds) and tbl == want
